@@ -36,6 +36,19 @@ CHECKS = {
    note=TRACE_NOTE),
 }
 
+REL_NOTE = ("Trusted base: TLC 1.8 evaluating spec/Props.tla + spec/RelCheck.tla (canonical forms, relational monitors); "
+            "harness/projection.py; Layer B substitutions. Both sides of every relation are real executions of /repo's working tree.")
+CHECKS.update({
+ "C01": dict(engine="history", category="model_checking", design_ref="§8 C01",
+   technique="TLA+ relational check (TLC, RelCheck.tla): canonical form of the final state of an incremental history vs a real build from scratch of the final sources",
+   text="For hand-written drop/re-add shapes and seeded generated projects with 4-phase edit histories (sources, plan versions, environment), the final committed graph and output contents of the incremental execution are compared by TLC with those of a real build from scratch, through the specification's canonical form; every execution is additionally validated against the commit-level monitors.",
+   note=REL_NOTE),
+ "C04": dict(engine="history", category="model_checking", design_ref="§8 C04",
+   technique="TLA+ relational check (TLC, RelCheck.tla): no-op rebuild leaves graph/outputs untouched with zero commands; executed commands of an edited rebuild lie in the least-fixed-point cone",
+   text="After each successful history a no-change rebuild must execute nothing, rewrite nothing and leave the full graph identical; after editing a random subset of sources TLC computes the cone (consumers, glob matches, downstream, created steps) on the union graph and requires every executed command to lie in it.",
+   note=REL_NOTE),
+})
+
 PENDING = ["C01","C02","C04","C05","C06","C07","C11","C13","C14","C16","C17","C18","C20"]
 
 def main():
@@ -65,6 +78,8 @@ def main():
         "engines": [
             {"name": "buildlayer", "path": "checks/buildlayer.py", "serves_properties": sorted(p for p, c in CHECKS.items() if c["engine"] == "buildlayer"),
              "kind_free_text": "Layer B: real director in process, simulated commands, controller-owned schedules; every recorded trace validated by TLC against spec/TraceCheck.tla"},
+            {"name": "history", "path": "checks/history.py", "serves_properties": sorted(p for p, c in CHECKS.items() if c["engine"] == "history"),
+             "kind_free_text": "Layer B histories; final states of related executions compared by TLC through spec/RelCheck.tla"},
         ],
         "checks": checks,
         "notes": "See DESIGN.md. known_findings.json lists repaired (fix:) and known defects.",
